@@ -1566,3 +1566,100 @@ package websocket
 //@ func NewClient$1
 //@ tags C14
 //@ assert at return#1[C14.newclient]: r0 == netConn && r1 == nil
+
+// ---------------------------------------------------------------------------
+// accessors, error methods, adapters: pure, return exactly the field / callee result
+//@ func (*Conn).CloseHandler
+//@ tags C08
+//@ pure
+//@ ensures[C08.getter] same(result, c.handleClose)
+
+//@ func (*Conn).PingHandler
+//@ tags C08
+//@ pure
+//@ ensures[C08.getter] same(result, c.handlePing)
+
+//@ func (*Conn).PongHandler
+//@ tags C08
+//@ pure
+//@ ensures[C08.getter] same(result, c.handlePong)
+
+//@ func (*Conn).NetConn
+//@ tags C11
+//@ pure
+//@ ensures[C11.getter] result == c.conn
+
+//@ func (*Conn).UnderlyingConn
+//@ tags C11
+//@ pure
+//@ ensures[C11.getter] result == c.conn
+
+//@ func (*brNetConn).NetConn
+//@ tags C17
+//@ pure
+//@ ensures[C17.getter] result == b.Conn
+
+//@ func (*prepareConn).SetWriteDeadline
+//@ tags C19
+//@ pure
+//@ ensures[C19.nodeadline] result == nil
+
+//@ func (*netError).Timeout
+//@ tags C11
+//@ pure
+//@ ensures[C11.timeouterr] result == e.timeout
+
+//@ func (*netError).Temporary
+//@ tags C11
+//@ pure
+//@ ensures[C11.timeouterr] result == e.temporary
+
+//@ func (*netError).Error
+//@ tags C11
+//@ pure
+//@ ensures[C11.timeouterr] same(result, e.msg)
+
+//@ func (HandshakeError).Error
+//@ tags C12
+//@ pure
+//@ ensures[C12.handshakeerr] same(result, e.message)
+
+//@ func WriteJSON
+//@ tags C01
+//@ requires WConn(c) && WOpen(c)
+//@ requires WOpenData(c)
+//@ modifies PrevMods(c)
+//@ bind e after call:WriteJSON#1
+//@ assert at call:WriteJSON#1[C01.json]: arg0 == c && arg1 == v
+//@ assert at return#1[C01.json]: result == e
+
+//@ func param:fn
+//@ params ctx network addr
+//@ results conn err
+//@ trusted
+//@ modifies
+
+//@ func (netDialerFunc).DialContext
+//@ tags C18
+//@ bind dc,derr after call:fn#1
+//@ assert at call:fn#1[C18.adapter]: arg0 == ctx && same(arg1, network) && same(arg2, addr)
+//@ assert at return#1[C18.adapter]: r0 == dc && r1 == derr
+
+//@ func (netDialerFunc).Dial
+//@ tags C18
+//@ bind dc,derr after call:fn#1
+//@ assert at call:fn#1[C18.adapter]: same(arg1, network) && same(arg2, addr)
+//@ assert at return#1[C18.adapter]: r0 == dc && r1 == derr
+
+//@ func field:Dialer.NetDial
+//@ params d network addr
+//@ results conn err
+//@ trusted
+//@ modifies
+
+// NetDial adapted to a context dial function: same target, results passed on
+//@ func (*Dialer).netDialFromURL$1
+//@ tags C18
+//@ bind dc,derr after call:NetDial#1
+//@ assert at call:NetDial#1[C18.adapter]: same(arg1, net) && same(arg2, addr)
+//@ assert at return#1[C18.adapter]: r0 == dc && r1 == derr
